@@ -141,7 +141,7 @@ def classify(case, r):
     return 'disagree', 'impl=%s model=%s' % (impl[:300], model[:300])
 
 _UNORDERED = re.compile(r'\*\*|(?:^|[.(\[{,;:?|=<>&+\-/%!~^])\s*\*|\$keys|\$each|\$spread|\$sift|\$merge|\$lookup|\$shuffle|\$random|\$now|\$millis|\$distinct')
-_SELF_UPDATE = re.compile(r'\|[^|]*\|[^|]*:\s*\$\s*[,}]')
+_SELF_UPDATE = re.compile(r'\|[^|]*\|[^|]*\$(?![A-Za-z_$])')
 
 def _has_null(d):
     if isinstance(d, dict):
@@ -160,6 +160,8 @@ def outside_model(case, r):
     if _UNORDERED.search(e) or _SELF_UPDATE.search(e):
         return True
     i, m = r.get('impl', ''), r.get('model') or ''
+    if {i, m} == {'V T', 'V F'} and ('function' in e or 'λ' in e):
+        return True   # equality of function values is not defined by any property (the port compares pointers/structure)
     return i.startswith('E') and m.startswith('E')
 
 def direct_failures(r):
@@ -322,6 +324,17 @@ class Check:
             if case is None:
                 continue
             st, detail = classify(case, r)
+            if st == 'impl-hang' and self.stats['hang_confirmations'] < 12:
+                # a watchdog expiry under load is not a hang: confirm alone with a six-fold time limit
+                self.stats['hang_confirmations'] += 1
+                c2 = dict(case); c2['id'] = 'confirm1'
+                res2, _, _ = run_cases(self.b, [c2], self.pid + '.confirm', timeout_ms=30000)
+                r2 = res2.get('confirm1')
+                if r2 is not None:
+                    st2, detail2 = classify(c2, r2)
+                    if st2 != 'impl-hang':
+                        self.stats['slow_under_load_not_hung'] += 1
+                        r, st, detail = r2, st2, detail2
             self.stats[st] += 1
             self.dist['outcome'][(r.get('impl') or '-')[:1] if r.get('compile', 'ok') in ('ok', '') else 'compile-error'] += 1
             self.count(case, r, nontrivial=(st not in ('compile-error', 'skipped')))
